@@ -498,6 +498,185 @@ func c14FreshProcess(st *c14State, inputs []c14Input) {
 	st.res.Counters["fresh_process_baselines"] = int64(len(inputs))
 }
 
+type coldObs struct {
+	Accepted bool      `json:"a"`
+	Vec      string    `json:"v"`
+	Scores   []float64 `json:"s"`
+	Nomen    string    `json:"n"`
+	Panicked string    `json:"p,omitempty"`
+}
+type coldRound struct {
+	Ver int       `json:"ver"`
+	S   string    `json:"s"`
+	A   []byte    `json:"a"`
+	Obs []coldObs `json:"obs"`
+}
+
+// judgeCold compares the observations of one cold-start process with the spec oracles.
+func judgeCold(c *Ctx, build string, rounds []coldRound) {
+	for round, it := range rounds {
+		api := probe.APIs[it.Ver]
+		v := api.Ver
+		a := spec.Assign(it.A)
+		for _, o := range it.Obs {
+			bad := ""
+			switch {
+			case o.Panicked != "":
+				bad = "panic: " + o.Panicked
+			case !o.Accepted:
+				bad = "well-formed vector rejected"
+			case o.Vec != v.Canonical(a):
+				bad = "Vector() = " + o.Vec
+			}
+			if bad == "" {
+				switch it.Ver {
+				case spec.V40:
+					want := spec.V4Score(spec.V4Effective(a))
+					if o.Scores[0] != float64(want.K)/10 {
+						bad = fmt.Sprintf("Score = %v, specification %.1f", o.Scores[0], float64(want.K)/10)
+					}
+					if n := nomenclatureOracle(v, a); o.Nomen != n {
+						bad = "Nomenclature = " + o.Nomen + ", specification " + n
+					}
+				case spec.V30, spec.V31:
+					want := spec.V3(it.Ver).Score(a)
+					for i, set := range []spec.Tenths{want.Base, want.Temporal, want.Env} {
+						if k, exact := tenth(o.Scores[i]); !exact || !set.Has(k) {
+							bad = fmt.Sprintf("%s = %v, not in the specification's set", api.ScoreNames[i], o.Scores[i])
+						}
+					}
+				case spec.V20:
+					want := spec.V2().Score(a)
+					for i, set := range []spec.KSet{want.Base, want.Temporal, want.Env} {
+						if k, exact := tenth(o.Scores[i]); !exact || !set.Has(k) {
+							bad = fmt.Sprintf("%s = %v, not in the specification's set", api.ScoreNames[i], o.Scores[i])
+						}
+					}
+				}
+			}
+			if bad != "" {
+				c.Violate(Violation{Kind: "wrong-result-under-concurrent-first-use", Version: v.Name, Steps: append(parseSteps(it.S), Step{Op: "score"}), Expected: "the specification's result for " + v.Canonical(a), Observed: bad,
+					Detail: map[string]any{"build": build, "round": round, "observations_in_round": len(it.Obs), "workload": "cold concurrent start (no earlier go-cvss call in the process)"}})
+			}
+		}
+		if len(it.Obs) > 1 {
+			c.Violate(Violation{Kind: "goroutines-disagree-under-concurrent-first-use", Version: v.Name, Steps: append(parseSteps(it.S), Step{Op: "score"}), Expected: "one result", Observed: fmt.Sprint(it.Obs), Detail: map[string]any{"build": build}})
+		}
+	}
+}
+
+// C14Cold is the "cold concurrent start" workload: NOTHING of go-cvss has run in
+// this process yet. Objects are obtained by parsing (round 0 of each string is
+// itself a simultaneous first call), then in lock-step rounds ALL goroutines call
+// the same scoring method on their own copy of the same object at the same
+// time, so that any lazily initialised table, memo or cache is first used
+// concurrently. Results are judged against the spec oracles (which do not share
+// state with the library), so a poisoned cache that stays wrong is still seen.
+func C14Cold(mode, tier string, seed int64, idx int) {
+	res := &c14Result{Mode: mode + "-cold", Counters: map[string]int64{}}
+	st := &c14State{res: res, seed: seed, keysBy: map[string]uint64{}, ctx: NewDistinct(1 << 20)}
+	r := gen.New(seed, "C14", "cold", fmt.Sprint(idx))
+	type item struct {
+		ver int
+		a   spec.Assign
+		s   string
+	}
+	var items []item
+	// v4: one or two vectors per MacroVector region (random classes), realised in random ways
+	v4 := spec.Versions[spec.V40]
+	for i := 0; i < 400; i++ {
+		e := spec.V4ClassFromIndex(r.Intn(spec.V4ClassCount))
+		a := v4Realise(r, e, r.Intn(3))
+		items = append(items, item{spec.V40, a, v4.Canonical(a)})
+	}
+	for _, vid := range []int{spec.V20, spec.V30, spec.V31} {
+		v := spec.Versions[vid]
+		for i := 0; i < 150; i++ {
+			a := gen.MixedAssign(r, v)
+			sp, _ := gen.RandomSpelling(r, v, a)
+			items = append(items, item{vid, a, sp})
+		}
+	}
+	// shuffle so that versions interleave
+	for i := len(items) - 1; i > 0; i-- {
+		j := r.Intn(i + 1)
+		items[i], items[j] = items[j], items[i]
+	}
+	G := 8 + 8*(idx%3) // 8, 16, 24 goroutines
+	runtime.GOMAXPROCS(16)
+	type obs struct {
+		accepted bool
+		vec      string
+		scores   [5]float64
+		nomen    string
+		panicked string
+	}
+	out := make([][]obs, G)
+	for g := range out {
+		out[g] = make([]obs, len(items))
+	}
+	var start, done sync.WaitGroup
+	for round := range items {
+		it := items[round]
+		api := probe.APIs[it.ver]
+		start.Add(1)
+		done.Add(G)
+		for g := 0; g < G; g++ {
+			go func(g int) {
+				defer done.Done()
+				start.Wait()
+				o := &out[g][round]
+				obj, err, p := api.SafeParse(it.s)
+				if p != nil {
+					o.panicked = p.Val
+					return
+				}
+				if err != nil || obj == nil {
+					return
+				}
+				o.accepted = true
+				for i := range api.ScoreNames {
+					f, p := probe.SafeScore(obj, i)
+					if p != nil {
+						o.panicked = p.Val
+					}
+					o.scores[i] = f
+				}
+				o.vec, _ = probe.SafeVector(obj)
+				if api.Nomencl != nil {
+					o.nomen, _ = api.SafeNomencl(obj)
+				}
+			}(g)
+		}
+		start.Done() // release all goroutines of this round together
+		done.Wait()
+		st.events.Add(int64(G))
+	}
+	// report the DISTINCT observations per round; the orchestrator judges them against
+	// the spec oracles (building the exact models here, under -race, would dominate the run)
+	var rounds []coldRound
+	for round, it := range items {
+		cr := coldRound{Ver: it.ver, S: it.s, A: []byte(it.a)}
+		seen := map[string]bool{}
+		for g := 0; g < G; g++ {
+			o := out[g][round]
+			co := coldObs{Accepted: o.accepted, Vec: o.vec, Scores: o.scores[:], Nomen: o.nomen, Panicked: o.panicked}
+			k := fmt.Sprint(co)
+			if !seen[k] {
+				seen[k] = true
+				cr.Obs = append(cr.Obs, co)
+			}
+		}
+		rounds = append(rounds, cr)
+	}
+	rb, _ := json.Marshal(rounds)
+	fmt.Println("C14COLD " + string(rb))
+	res.Events = st.events.Load()
+	res.Configs = []string{fmt.Sprintf("cold start: %d goroutines released together on each of %d first-use rounds", G, len(items))}
+	b, _ := json.Marshal(res)
+	fmt.Println("C14RESULT " + string(b))
+}
+
 // C14Child is the workload process: mode = plain | race | race-instr | asan.
 func C14Child(mode, tier string, seed int64) {
 	res := &c14Result{Mode: mode, Counters: map[string]int64{}}
@@ -656,6 +835,53 @@ func CheckC14(c *Ctx) {
 		if bin == "" {
 			Broken("C14: %s not set (run through run.sh)", b.env)
 		}
+		// cold concurrent starts: several short-lived processes per build
+		ncold := c.Pick(4, 24)
+		var coldEvents, coldProcs int64
+		for k := 0; k < ncold; k++ {
+			cc := exec.Command(bin, "C14cold", c.Tier, fmt.Sprint(c.Seed), b.mode, fmt.Sprint(k))
+			cc.Env = append(os.Environ(),
+				"GORACE=halt_on_error=0 log_path="+filepath.Join(logDir, b.mode+".race"),
+				"VERIF_YIELD_SEED="+fmt.Sprint(c.Seed+int64(k)),
+				"ASAN_OPTIONS=halt_on_error=1:abort_on_error=0:log_path="+filepath.Join(logDir, b.mode+".asan"))
+			cef, _ := os.Create(filepath.Join(logDir, fmt.Sprintf("%s.cold%d.stderr", b.mode, k)))
+			cc.Stderr = cef
+			cout, cerr := cc.Output()
+			cef.Close()
+			var cres c14Result
+			ok := false
+			var rounds []coldRound
+			for _, l := range strings.Split(string(cout), "\n") {
+				if strings.HasPrefix(l, "C14RESULT ") && json.Unmarshal([]byte(l[10:]), &cres) == nil {
+					ok = true
+				}
+				if strings.HasPrefix(l, "C14COLD ") {
+					json.Unmarshal([]byte(l[8:]), &rounds)
+				}
+			}
+			if ok && len(rounds) == 0 {
+				ok = false
+			}
+			judgeCold(c, b.mode, rounds)
+			if !ok {
+				eb, _ := os.ReadFile(filepath.Join(logDir, fmt.Sprintf("%s.cold%d.stderr", b.mode, k)))
+				tail := string(eb)
+				if len(tail) > 2000 {
+					tail = tail[len(tail)-2000:]
+				}
+				c.Violate(Violation{Kind: "process-died-under-workload", Expected: "the " + b.mode + " build survives a cold concurrent start", Observed: fmt.Sprintf("exit: %v; stderr tail: %s", cerr, tail), Detail: map[string]any{"build": b.mode, "workload": "cold"}})
+				continue
+			}
+			for _, m := range cres.Mismatches {
+				if m.Detail == nil {
+					m.Detail = map[string]any{}
+				}
+				m.Detail["build"] = b.mode
+				c.Violate(m)
+			}
+			coldEvents += cres.Events
+			coldProcs++
+		}
 		cmd := exec.Command(bin, "C14child", c.Tier, fmt.Sprint(c.Seed), b.mode)
 		cmd.Env = append(os.Environ(),
 			"GORACE=halt_on_error=0 log_path="+filepath.Join(logDir, b.mode+".race"),
@@ -728,11 +954,12 @@ func CheckC14(c *Ctx) {
 			c.Violate(Violation{Kind: "data-race", Expected: "0 race reports from the race detector (" + b.mode + " build)", Observed: fmt.Sprintf("%d report blocks, %d after de-duplication: %s", raw, len(dedup), strings.Join(keys, "; ")),
 				Detail: map[string]any{"build": b.mode, "first_report": sample, "logs": filepath.Join(logDir, b.mode+".race*")}})
 		}
-		totalEvents += res.Events
+		totalEvents += res.Events + coldEvents
 		distinct += res.ContextPairs
 		summary[b.mode] = map[string]any{"events": res.Events, "distinct_keys": res.Keys, "keys_seen_by_2plus_goroutines": res.KeysMulti, "distinct_(previous,current)_context_pairs": res.ContextPairs,
 			"yields_taken": res.Yields, "strings_reverified": res.StringsRecheck, "sequences": res.Sequences, "pool_reuse_sequences_v2": res.PoolReuse, "race_report_blocks": raw, "race_reports_deduplicated": len(dedup),
-			"configurations": res.Configs, "wall_s": time.Since(t0).Seconds(), "inputs": res.Counters["inputs"], "fresh_process_baselines": res.Counters["fresh_process_baselines"]}
+			"configurations": res.Configs, "wall_s": time.Since(t0).Seconds(), "inputs": res.Counters["inputs"], "fresh_process_baselines": res.Counters["fresh_process_baselines"],
+			"cold_start_processes": coldProcs, "cold_start_first_use_calls": coldEvents}
 		if b.mode == "race-instr" {
 			c.Floor("yields taken in the instrumented build", res.Yields, 1000)
 		}
@@ -748,7 +975,7 @@ func CheckC14(c *Ctx) {
 		c.Extra["yield_points_inserted"] = s
 	}
 	c.SetReport(Report{
-		Rule:        "four builds of the CURRENT tree (plain; -race; -race after the AST yield-point pass that inserts seeded Gosched/sleep calls at loop heads and after call statements of go-cvss; -asan in thorough). In each: (1) baselines of ~40 inputs per version computed after forced double GC in forward and reverse order (must agree with each other, with the grammar/canonical-form oracles and -- plain build -- with the same call made as the first call of a fresh process); (2) sequential histories hostile to pooled scratch buffers under GOMAXPROCS(1)+GC off: ALL ordered pairs per version, all triples for v2 (1/7 for others), random sequences of 2-50 calls across versions -- every result must equal its baseline; (3) goroutines {4,16,64} x GOMAXPROCS {2,16} hammering the small shared input set (parse, everything observable of shared read-only objects, Set on local copies, parse-mutate-parse, Rating) with results compared to baselines; (4) every Vector() string kept next to an immediate clone and re-compared later, forced GC every 10k events. Race reports are counted from the GORACE log (never from the exit code) and de-duplicated by first-frame pair. evaluations = events; distinct = distinct (previous call, current call) context pairs summed over builds",
+		Rule:        "four builds of the CURRENT tree (plain; -race; -race after the AST yield-point pass that inserts seeded Gosched/sleep calls at loop heads and after call statements of go-cvss; -asan in thorough). In each: (1) baselines of ~40 inputs per version computed after forced double GC in forward and reverse order (must agree with each other, with the grammar/canonical-form oracles and -- plain build -- with the same call made as the first call of a fresh process); (2) sequential histories hostile to pooled scratch buffers under GOMAXPROCS(1)+GC off: ALL ordered pairs per version, all triples for v2 (1/7 for others), random sequences of 2-50 calls across versions -- every result must equal its baseline; (3) goroutines {4,16,64} x GOMAXPROCS {2,16} hammering the small shared input set (parse, everything observable of shared read-only objects, Set on local copies, parse-mutate-parse, Rating) with results compared to baselines; (0) cold concurrent starts: short-lived processes in which NO go-cvss call has happened yet release 8-24 goroutines together, round by round, on the same parse + score + Vector call (550 first-use rounds each), judged against the spec oracles; (4) every Vector() string kept next to an immediate clone and re-compared later, forced GC every 10k events. Race reports are counted from the GORACE log (never from the exit code) and de-duplicated by first-frame pair. evaluations = events; distinct = distinct (previous call, current call) context pairs summed over builds",
 		DistinctN:   distinct,
 		Assumptions: []string{"the race detector sees only executed pairs of accesses; interleavings are explored, not enumerated", "in the plain build every baseline is also recomputed as the first call of a freshly started process; the sanitizer builds rely on the double-GC baseline"},
 	})
